@@ -235,6 +235,7 @@ class SimProc:
         self.own_group = kwargs.get('preexec_fn') is not None or kwargs.get('start_new_session', False)
         self.transport: T.Optional['SimSubprocessTransport'] = None
         self.dying = False          # a fatal signal was accepted, death is scheduled
+        self.killed = False         # ... and it was SIGKILL
         self.term_seen = False
         self.signals: T.List[T.Tuple[float, int, str]] = []
         self.orphan_alive = False   # a grandchild keeps pipes open after the main process exits
@@ -325,10 +326,33 @@ class SimLoop(base_events.BaseEventLoop):
         if horizon is None:
             if self._stopping or self._ready:
                 return []
-            raise SimDeadlock('event loop idle with no timer and no pending simulator event')
+            raise SimDeadlock('event loop idle with no timer and no pending simulator event; tasks waiting: ' + self._describe_tasks())
         if horizon > self._now:
             self._now = horizon
         return []
+
+    def _describe_tasks(self) -> str:
+        import asyncio as _a
+        import os
+        out = []
+        for t in sorted(_a.all_tasks(self), key=lambda t: t.get_name()):
+            if t.done():
+                continue
+            chain = []
+            obj = t.get_coro()
+            for _ in range(12):
+                fr = getattr(obj, 'cr_frame', None) or getattr(obj, 'gi_frame', None)
+                if fr is not None:
+                    chain.append(f'{os.path.basename(fr.f_code.co_filename)}:{fr.f_lineno}:{fr.f_code.co_name}')
+                nxt = getattr(obj, 'cr_await', None) or getattr(obj, 'gi_yieldfrom', None)
+                if nxt is None:
+                    break
+                if isinstance(nxt, _a.Future):
+                    chain.append('waits for ' + type(nxt).__name__ + (':' + nxt.get_name() if isinstance(nxt, _a.Task) else ''))
+                    break
+                obj = nxt
+            out.append('[' + ' -> '.join(chain) + ']')
+        return '; '.join(out)[:3000]
 
     # signals
     def add_signal_handler(self, sig: int, callback: T.Callable[..., T.Any], *args: T.Any) -> None:
@@ -479,6 +503,10 @@ class Sim:
         def f() -> None:
             if p.returncode is not None and not p.orphan_alive:
                 return None
+            if p.killed and not p.script.get('eof'):
+                # SIGKILL has been delivered: the process executes nothing any more, even if the kernel takes a
+                # moment (kill_delay) to reap it. (Scripts with a later EOF model a grandchild that lives on.)
+                return None
             tgt = 1 if (fd == 2 and p.merge_stderr) else fd
             pipe = p.pipes.get(tgt)
             if pipe is not None:
@@ -534,6 +562,8 @@ class Sim:
             raise ProcessLookupError(3, 'No such process')
         sc = p.script
         if sig == signal.SIGKILL:
+            if p.returncode is None:
+                p.killed = True
             delay = sc.get('kill_delay', 0.0)
             self._condemn(p, now + delay, -int(signal.SIGKILL), group)
         elif sig == signal.SIGTERM:
